@@ -5,7 +5,7 @@ From Murex Require Export Base.Outcome Base.Bytes Base.CheckLib Model.ByteStr Mo
 (* input: data type, builtin with its parameters, the elements written to the
    builtin's stdin; observation: error flag and the elements decoded from its
    stdout (for OpMatch: of `match` and of `!match`). *)
-Record case := { c_dt : dtype; c_op : op; c_in : list bytes; c_obs : obs }.
+Record case := { c_dt : dtype; c_strict : bool; c_op : op; c_in : list bytes; c_obs : obs }.
 
 Definition elems_eqb : list bytes -> list bytes -> bool := list_eqb bytes_eqb.
 
@@ -13,7 +13,7 @@ Definition obs_eqb (a b : obs) : bool :=
   Bool.eqb (o_err a) (o_err b) && elems_eqb (o_out a) (o_out b) &&
   Bool.eqb (o_err2 a) (o_err2 b) && elems_eqb (o_out2 a) (o_out2 b).
 
-Definition agree (c : case) : bool := obs_eqb (run (c_dt c) (c_op c) (c_in c)) (c_obs c).
+Definition agree (c : case) : bool := obs_eqb (run (c_dt c) (c_strict c) (c_op c) (c_in c)) (c_obs c).
 
 (* ---- the property, written on observations ----------------------------- *)
 (* non-decreasing string order *)
@@ -60,11 +60,6 @@ Definition right_spec (n : Z) (i o : bytes) : bool :=
   let c := Z.of_nat (length cs) in
   bytes_eqb o (concat (skipn (Z.to_nat (c - keep n c)) cs)).
 
-(* an error is acceptable only as the documented "empty array" error of the
-   json writer (proc strict-arrays), i.e. when the result list is empty *)
-Definition err_ok (dt : dtype) (err : bool) (out : list bytes) : bool :=
-  negb err || (match dt with DJson => is_nil out | DStr => false end).
-
 Definition spec_elems (o : op) (xs out out2 : list bytes) : bool :=
   match o with
   | OpMsort => sortedb out && permb xs out
@@ -78,6 +73,9 @@ Definition spec_elems (o : op) (xs out out2 : list bytes) : bool :=
   | OpSuffix ps => forall2b (fun i o => bytes_eqb o (i ++ join_sp ps)) xs out
   end.
 
+(* The property: the builtin succeeds and its output is the documented list —
+   an empty list is a legitimate result.  (Only `match` without a pattern is a
+   usage error.) *)
 Definition spec_ok (c : case) : bool :=
   let xs := in_elems (c_dt c) (c_in c) in
   let ob := c_obs c in
@@ -85,10 +83,23 @@ Definition spec_ok (c : case) : bool :=
   | OpMatch ps =>
     if is_nil (join_sp ps)
     then o_err ob && o_err2 ob && is_nil (o_out ob) && is_nil (o_out2 ob)   (* usage error, nothing written *)
-    else spec_elems (c_op c) xs (o_out ob) (o_out2 ob) &&
-         err_ok (c_dt c) (o_err ob) (o_out ob) && err_ok (c_dt c) (o_err2 ob) (o_out2 ob)
-  | o => spec_elems o xs (o_out ob) [] && err_ok (c_dt c) (o_err ob) (o_out ob)
+    else spec_elems (c_op c) xs (o_out ob) (o_out2 ob) && negb (o_err ob) && negb (o_err2 ob)
+  | o => spec_elems o xs (o_out ob) [] && negb (o_err ob)
   end.
 
-(* no known finding is listed for C38 *)
-Definition classify (c : case) : N := 0%N.
+(* known finding 1: for the json type an empty result list is reported as the
+   error "no data returned" (nothing written) instead of `[]`.  Exactly: type
+   json, not a usage error, the observed lists are the documented ones, and
+   every side that reports an error is an empty list. *)
+Definition classify (c : case) : N :=
+  let xs := in_elems (c_dt c) (c_in c) in
+  let ob := c_obs c in
+  match c_dt c with
+  | DStr => 0%N
+  | DJson =>
+    let usage := match c_op c with OpMatch ps => is_nil (join_sp ps) | _ => false end in
+    if negb usage && spec_elems (c_op c) xs (o_out ob) (o_out2 ob) &&
+       (o_err ob || o_err2 ob) &&
+       (negb (o_err ob) || is_nil (o_out ob)) && (negb (o_err2 ob) || is_nil (o_out2 ob))
+    then 1%N else 0%N
+  end.
